@@ -182,3 +182,34 @@ def show(ast):
     _, kind, i, args, extra = ast
     s = f"{kind}{'' if extra is None else repr(extra)}({','.join(show(c) for c in args)})"
     return s if i is None else f"{i}={s}"
+
+
+def solver_safe_obj(obj):
+    """Real structure: no compound child under a negatively signed parent (over the whole DAG)."""
+    for o in walk(obj).values():
+        if not is_var(o) and o.sign < 0:
+            if any(not is_var(p) for p in o.propositions):
+                return False
+    return True
+
+
+def arith_eval_obj(obj, alpha, memo=None):
+    """Independent arithmetic evaluation over a live object's structure (used for derived states that have no AST)."""
+    if memo is None:
+        memo = {}
+    if id(obj) in memo:
+        return memo[id(obj)]
+    if is_var(obj):
+        lo, hi = obj.bounds.as_tuple()
+        v = alpha[obj.id] if obj.id in alpha else (lo if lo == hi else None)
+    else:
+        lo, hi = obj.bounds.as_tuple()
+        if lo == hi:
+            v = lo
+        else:
+            s = 0
+            for p in obj.propositions:
+                s += arith_eval_obj(p, alpha, memo)
+            v = 1 if obj.sign * s >= obj.value else 0
+    memo[id(obj)] = v
+    return v
